@@ -990,6 +990,12 @@ func (c *Ctx) ruleMalformedEndsLink(rr *RuleRep) {
 				okQ = false
 			}
 		}
+		if !okQ {
+			// no selection by equality tests: evaluate the parser for each value of the two bits
+			if tbl, rejected, decided := c.inboundQoSByBits(p); decided && rejected[6] && len(tbl) == 3 {
+				okQ = true
+			}
+		}
 		if okQ {
 			rr.OK("pktPublish.Parse/qos", p.Pos(), "a PUBLISH is accepted only with QoS bits 0, 1 or 2; QoS 3 is rejected")
 		} else {
